@@ -50,3 +50,110 @@ Print Assumptions C13_get_unfiltered_refuted.
 Example C13_chroot_example :
   map_path [47;114] [47;47;46;46;47;97;47;47;46;47;98] = [47;114;47;97;47;98].
 Proof. vm_compute. reflexivity. Qed.
+
+(* ==================== recursive copy plan ==================================================
+   Model/CopyPlan.v: the sequence of destination-side operations (isdir, mkdir, symlink,
+   open-for-write, setstat, error-handler calls) that SFTPClient._begin_copy / _copy (get, put,
+   copy, mget ...) perform for a source tree chosen entirely by the source: names, types, link
+   targets, duplicate names, listing order, a following stat that still answers "symbolic link",
+   injected errors.  All theorems hold for every such tree, every option combination (preserve,
+   recurse, follow_symlinks, error handler or not), every initial destination state, every fuel
+   and every answer [orc] of the world beyond symbolic links.  Proofs: Proofs/CopyPlanProofs.v. *)
+From AV Require Import Model.CopyPlan Proofs.CopyPlanProofs.
+
+(* T1. Every operation's path is  dst/n1/.../nk  (optionally with one trailing slash, which an
+   EMPTY listed name produces and which names the directory itself) where every ni is non-empty,
+   slash-free and neither "." nor "..": lexically inside dst.  Premise: the basenames of the
+   sources NAMED BY THE CALLER are not ".", ".." (they are slash-free by construction). *)
+Theorem C13_copy_paths_under_dst : forall orc c dst srcs fs0,
+  dst <> [] -> ends_with_slash dst = false ->
+  Forall (fun e => get_name_ok (fst e) = true) srcs ->
+  Forall (fun o => under_dst dst (op_path o)) (copy_plan orc c dst srcs fs0).
+Proof. exact copy_paths_under_dst. Qed.
+Print Assumptions C13_copy_paths_under_dst.
+
+(* T1 for a glob pattern dir/* (mget, get with a pattern): no premise on the listing at all - the
+   names that reach _begin_copy are those the (repaired, abbc782) glob expansion lets through. *)
+Theorem C13_copy_glob_paths_under_dst : forall orc c dst dir listing fs0,
+  dst <> [] -> ends_with_slash dst = false ->
+  Forall (fun o => under_dst dst (op_path o)) (copy_plan_glob orc c true dst dir listing fs0).
+Proof. exact copy_glob_paths_under_dst. Qed.
+Print Assumptions C13_copy_glob_paths_under_dst.
+
+(* ... and the glob expansion before abbc782 did leave dst (listed name "f/..", finding C13-7). *)
+Theorem C13_copy_glob_old_refuted :
+  exists orc c dst dir listing fs0,
+    dst <> [] /\ ends_with_slash dst = false /\
+    ~ Forall (fun o => under_dst dst (op_path o)) (copy_plan_glob orc c false dst dir listing fs0).
+Proof. exact copy_glob_old_refuted. Qed.
+Print Assumptions C13_copy_glob_old_refuted.
+
+(* T2. Once the plan has created a symbolic link at q, no later operation (of any kind) has q as
+   a proper directory prefix of its path, and no later isdir / mkdir / symlink / open-for-write
+   is on q itself.  (dupcheck c = the `symlinks` set of a79246f is in place.) *)
+Theorem C13_copy_never_through_new_link : forall orc c dst srcs fs0,
+  dupcheck c = true -> Forall (fun e => mem_z SLASH (fst e) = false) srcs ->
+  forall l1 t q th l2 o,
+    copy_plan orc c dst srcs fs0 = l1 ++ OSymlink t q true th :: l2 -> In o l2 ->
+    zprefix (q ++ [SLASH]) (op_path o) = false /\ (strict o = true -> op_path o <> q).
+Proof. exact copy_never_through_new_link. Qed.
+Print Assumptions C13_copy_never_through_new_link.
+
+(* T2, physical form. Premise: the destination contains no symbolic link before the copy
+   (no_links fs0).  Then the resolution of the path of EVERY operation of the plan - the model
+   computes this flag from its file-system state at the moment of the operation - traverses no
+   symbolic link, so with T1 every creation / write / attribute change lands inside dst. *)
+Theorem C13_copy_resolves_inside : forall orc c dst srcs fs0,
+  dupcheck c = true -> presfix c = true -> Forall (fun e => mem_z SLASH (fst e) = false) srcs ->
+  no_links fs0 ->
+  Forall (fun o => op_thru o = false) (copy_plan orc c dst srcs fs0).
+Proof. exact copy_resolves_inside. Qed.
+Print Assumptions C13_copy_resolves_inside.
+
+(* T3. The procedure before a79246f violates T2: a link "x" followed by a directory "x". *)
+Theorem C13_copy_old_refuted :
+  exists orc c dst srcs fs0,
+    no_links fs0 /\ Forall (fun e => mem_z SLASH (fst e) = false) srcs /\
+    exists l1 t q th l2 o,
+      copy_plan_old orc c dst srcs fs0 = l1 ++ OSymlink t q true th :: l2 /\ In o l2 /\
+      strict o = true /\ zprefix (q ++ [SLASH]) (op_path o) = true /\ op_thru o = true.
+Proof. exact copy_old_refuted. Qed.
+Print Assumptions C13_copy_old_refuted.
+
+(* T4. preserve: a setstat on a path where the plan created a symbolic link never follows it
+   (presfix c = the flag of 6e0d949; seeded defect C13-d breaks exactly this). *)
+Theorem C13_copy_preserve_never_follows_new_link : forall orc c dst srcs fs0,
+  dupcheck c = true -> presfix c = true -> Forall (fun e => mem_z SLASH (fst e) = false) srcs ->
+  forall l1 t q th l2 p ok th',
+    copy_plan orc c dst srcs fs0 = l1 ++ OSymlink t q true th :: l2 ->
+    In (OSetstat p true ok th') l2 -> p <> q.
+Proof. exact copy_preserve_never_follows_new_link. Qed.
+Print Assumptions C13_copy_preserve_never_follows_new_link.
+
+(* ... and before 6e0d949 it did, under follow_symlinks, when the source's following stat still
+   answered "symbolic link" (finding C13-8). *)
+Theorem C13_copy_preserve_old_refuted :
+  exists orc c dst srcs fs0,
+    no_links fs0 /\ dupcheck c = true /\
+    exists l1 t q th l2 ok,
+      copy_plan orc c dst srcs fs0 = l1 ++ OSymlink t q true th :: l2 /\
+      In (OSetstat q true ok true) l2.
+Proof. exact copy_preserve_old_refuted. Qed.
+Print Assumptions C13_copy_preserve_old_refuted.
+
+(* non-vacuity: a plan with a duplicate name, a link, a rejected second "x", preserve *)
+Example C13_copy_example :
+  copy_plan (fun _ => RNone) (mkcfg true true false true) [100]
+            [([116], Dir [([120], Link [47;111] Broken); ([120], Dir [([101], File true)] true);
+                          ([121], File true)] true)] [([100], KDir)]
+  = [OIsdir [100] true false; OIsdir [100;47;116] false false; OMkdir [100;47;116] true false;
+     OSymlink [47;111] [100;47;116;47;120] true false; OSetstat [100;47;116;47;120] false true false;
+     OErr EBad [100;47;116;47;120];
+     OWrite [100;47;116;47;121] true false; OSetstat [100;47;116;47;121] true true false;
+     OSetstat [100;47;116] true true false].
+Proof. vm_compute. reflexivity. Qed.
+
+Example C13_copy_premises_satisfiable :
+  no_links [([100], KDir); ([100;47;120], KFile)] /\ dupcheck (mkcfg true true true false) = true /\
+  presfix (mkcfg true true true false) = true.
+Proof. split; [intros q [H | [H | []]]; inversion H|split; reflexivity]. Qed.
